@@ -210,7 +210,7 @@ class StmtMixin:
         if rest is not None:
             a, b = self.split(rest, self.is_listlike(rest, o))
             if a is not None:
-                raise Unsupported('list item assignment')
+                self.unsupported(a, 'list item assignment')
             if b is not None:
                 out.extend(exc(b, 'TypeError'))
         return out
@@ -218,7 +218,7 @@ class StmtMixin:
     def slice_assign(self, st, o, sl, v):
         a, b = self.split(st, z3.And(V.is_obj(o), self.isinst_ref(V.ref(o), 'list')))
         if b is not None:
-            raise Unsupported('slice assignment on non list object')
+            self.unsupported(b, 'slice assignment on non list object')
         seq = self.seq_of(a, o)
         a, lo, hi = self.slice_bounds(a, sl, z3.Length(seq))
 
@@ -255,7 +255,7 @@ class StmtMixin:
         if b is not None:
             x, y = self.split(b, z3.Or(V.is_str(v), self.is_dictlike(b, v)))
             if x is not None:
-                raise Unsupported('unpacking a string or dict')
+                self.unsupported(x, 'unpacking a string or dict')
             if y is not None:
                 yield y, ('exc', ExcVal('TypeError'))
         if a is not None:
@@ -660,7 +660,7 @@ class StmtMixin:
                 return ok(s, self.new_list(s, mk_seq([a[0] for a in acc])))
             j, rng, keep, vs, it = sym
             if keep is not None:
-                raise Unsupported('filtered comprehension of symbolic length')
+                self.unsupported(keep, 'filtered comprehension of symbolic length')
             R = self.fresh('comp', SeqV)
             s.assume(z3.Length(R) == it.n)
             s.assume(qforall([j], z3.Implies(rng, R[j] == vs[0]), patterns=[R[j]]))
@@ -676,7 +676,7 @@ class StmtMixin:
                 return ok(s, it2)
             j, rng, keep, vs, it = sym
             if keep is not None:
-                raise Unsupported('filtered generator of symbolic length')
+                self.unsupported(keep, 'filtered generator of symbolic length')
             R = self.fresh('gen', SeqV)
             s.assume(z3.Length(R) == it.n)
             s.assume(qforall([j], z3.Implies(rng, R[j] == vs[0]), patterns=[R[j]]))
